@@ -214,6 +214,38 @@ fn oracle(c: &Case, st: &mut Stats) -> Result<(), String> {
       st.class("window-decryption-tried");
     }
   }
+  // (b') ... nor works as a pad: no 8 bytes of the keystream (ciphertext xor payload) of any
+  // report of the case occur anywhere outside the ciphertexts of the case's reports
+  {
+    let mut outside: std::collections::HashSet<[u8; 8]> = std::collections::HashSet::new();
+    for (r, _, _) in reps.iter() {
+      let b = r.to_bytes();
+      let ctr = layout::report_fields(&b).map(|f| f.ct).unwrap_or(0..0);
+      for (o, w) in b.windows(8).enumerate() {
+        if o + 8 <= ctr.start || o >= ctr.end {
+          outside.insert(w.try_into().unwrap());
+        }
+      }
+    }
+    for (r, payload, ct) in reps.iter() {
+      let over = ct.len() - payload.len();
+      for shift in if over == 0 { vec![0] } else { vec![0, over] } {
+        let ks: Vec<u8> = payload.iter().zip(ct[shift..].iter()).map(|(p, c)| p ^ c).collect();
+        st.evals(1);
+        for (o, w) in ks.windows(8).enumerate() {
+          let w: [u8; 8] = w.try_into().unwrap();
+          if outside.contains(&w) {
+            return Err(format!(
+              "8 bytes carried in a report outside its ciphertext ({}) equal ciphertext xor payload at payload offset {o}: whoever holds the report can strip the cipher from that part of the payload; report {}",
+              hex::encode(w),
+              hex::encode(r.to_bytes())
+            ));
+          }
+        }
+      }
+    }
+    st.class("pad-scan");
+  }
   // (c) ciphertext difference vs. plaintext difference, all pairs of one measurement
   for i in 0..reps.len() {
     for j in i + 1..reps.len() {
@@ -302,7 +334,7 @@ pub fn property() -> Property {
   Property {
     id: "C03",
     level: "exploration",
-    rule: "generated (measurement, epoch, t >= 2, 2-5 clients of one measurement whose associated data are unrelated / share a prefix of generated length / differ in one byte, lengths 1..900 so that payloads span 1-6 Strobe duplex blocks; fewer than t reports exist). Oracles: (a) scan-eligible associated data (and 16-byte slices) never occur in the encoded report; (b) no 16-byte window of the report, and no 32-byte window run through derive_ske_key, decrypts the payload; (c) for every pair, offsets where C xor C' = P xor P' beyond the duplex block of the first difference stay within a chance bound (N/256 + 7 sqrt(N/256) + 4, no run >= 8), and likewise everywhere for a pair of different measurements; the relation INSIDE that block for same-measurement pairs is the recorded finding F9. Non-trivial: a pair with differing associated data compared over >= 16 offsets; distinct by the two payloads.",
+    rule: "generated (measurement, epoch, t >= 2, 2-5 clients of one measurement whose associated data are unrelated / share a prefix of generated length / differ in one byte, lengths 1..900 so that payloads span 1-6 Strobe duplex blocks; fewer than t reports exist). Oracles: (a) scan-eligible associated data (and 16-byte slices) never occur in the encoded report; (b) no 16-byte window of the report, and no 32-byte window run through derive_ske_key, decrypts the payload, and no 8 bytes outside the ciphertexts equal ciphertext xor payload at any offset (a carried pad); (c) for every pair, offsets where C xor C' = P xor P' beyond the duplex block of the first difference stay within a chance bound (N/256 + 7 sqrt(N/256) + 4, no run >= 8), and likewise everywhere for a pair of different measurements; the relation INSIDE that block for same-measurement pairs is the recorded finding F9. Non-trivial: a pair with differing associated data compared over >= 16 offsets; distinct by the two payloads.",
     assumptions: vec![
       "confidentiality is only sampled through these necessary conditions",
       "Strobe-128 duplex block = 166 bytes; the encryption operation starts on a block boundary",
